@@ -591,3 +591,27 @@ Proof.
       replace (f - F + F)%nat with f in M by lia. rewrite <- M. exact E. }
   rewrite EF. reflexivity.
 Qed.
+
+(* ------------------------------------------------------------------ *)
+(** * White space before the document is irrelevant *)
+
+Lemma skip_ws_app w s : all_ws w = true -> skip_ws (w ++ s) = skip_ws s.
+Proof.
+  induction w as [|c w IH]; intros H; [reflexivity|].
+  cbn [all_ws forallb] in H. apply andb_true_iff in H as [Hc Hw].
+  cbn [app skip_ws]. rewrite Hc. apply IH. exact Hw.
+Qed.
+
+Theorem parse_doc_leading_ws w s : all_ws w = true -> parse_doc (w ++ s) = parse_doc s.
+Proof.
+  intros Hw. unfold parse_doc. rewrite app_length.
+  set (F := (2 * length s + 2)%nat).
+  replace (2 * (length w + length s) + 2)%nat with (2 * length w + F)%nat by (subst F; lia).
+  assert (NO : pv F 128 s <> OutOfFuel).
+  { pose proof (proj1 (all_steps F) 128 s (le_n _)) as G. unfold good in G.
+    destruct (pv F 128 s) as [[? ?]| | |]; try contradiction; discriminate. }
+  assert (E : pv (2 * length w + F) 128 (w ++ s) = pv (2 * length w + F) 128 s).
+  { assert (HF : exists f, (2 * length w + F)%nat = S f) by (exists (2 * length w + 2 * length s + 1)%nat; subst F; lia).
+    destruct HF as (f & ->). rewrite !pv_S. unfold pv_body. rewrite (skip_ws_app w s Hw). reflexivity. }
+  rewrite E, (pv_more_fuel (2 * length w) F 128 s NO). reflexivity.
+Qed.
